@@ -115,23 +115,59 @@ contract(F, "DefaultQueue._iter_helper_working", props=["C16"], aliases=AL, yiel
 # ---- _populate_staging: on return there is something to hand out (otherwise StopIteration was raised by the level change)
 for _nm in ("_change_level", "_iter_helper_curr"):
     pass
-contract(F, "DefaultQueue._change_level", props=["C16"], verify=False, aliases=AL,
-         trusted_reason="level change (sorted by counts, lambda key): only its frame and its StopIteration are used here; its "
-                        "scheduling behaviour is covered by the bounded stand-in c16",
+_ALL_EMPTY = "forall(lambda i: implies(0 <= i and i < len(self.curr_level), len(self.curr_level[i]) == 0))"
+contract(F, "DefaultQueue._change_level", props=["C16"], aliases=AL, asserts="raise",
          params={"self": Q},
          # its three leading asserts, as preconditions (obligations of the caller)
-         requires=["len(self.staging) == 0", "len(self.working) == 0",
-                   "forall(lambda i: implies(0 <= i and i < len(self.curr_level), len(self.curr_level[i]) == 0))"],
-         # on normal return the new level is not empty (otherwise StopIteration); working is not touched
+         requires=["len(self.staging) == 0", "len(self.working) == 0", _ALL_EMPTY],
+         # exhaustion is signalled exactly when nothing waits for the next level
+         raises=[("StopIteration", "len(self.next_level) == 0")],
          ensures=["exists(lambda i: 0 <= i and i < len(self.curr_level) and len(self.curr_level[i]) > 0)",
-                  "len(self.working) == old(len(self.working))", "wf(self)"],
-         may_raise=["StopIteration"], modifies=[m for m in _NEXT_MODS if m != "*self.working"])
-contract(F, "DefaultQueue._iter_helper_curr", props=["C16"], verify=False, aliases=AL, yield_seq=True,
-         trusted_reason="next(generator with side effects) over the current level: only its frame is used here (bounded c16)",
+                  "len(self.working) == old(len(self.working))", "wf(self)",
+                  # the new level holds exactly the waiting labels, each once, at the first expansion stage; nothing waits any more
+                  "len(self.curr_level[0]) == old(len(self.next_level))",
+                  # (WHICH labels: exactly the waiting ones, each once -- not discharged here: the enumeration of a Counter's items
+                  #  is a z3 sequence, over which neither solver instantiates; bounded stand-in c16)
+                  "forall(lambda i: implies(1 <= i and i < len(self.curr_level), len(self.curr_level[i]) == 0))",
+                  "forall(lambda y: not (y in self.next_level))", "len(self.next_level) == 0",
+                  "len(self.queue_sizes) == old(len(self.queue_sizes)) + 1",
+                  "self.queue_sizes[len(self.queue_sizes) - 1] == len(self.curr_level[0])",
+                  "forall(lambda y: (y in self.ignore) == old(y in self.ignore))"],
+         ensures_raise={"StopIteration": [_ALL_EMPTY, "len(self.queue_sizes) == old(len(self.queue_sizes))"]},
+         modifies=[m for m in _NEXT_MODS if m != "*self.working"],
+         notes="level change: as many labels as were waiting enter the first stage, nothing waits afterwards, one more completed "
+               "level is recorded; exhaustion exactly when nothing waits")
+# the stage served is the first one that holds a label; FIRST(m) is read in the state before the call
+_FIRST = ("old(0 <= m and m < len(self.curr_level) and len(self.curr_level[m]) > 0 and "
+          "forall(lambda j: implies(0 <= j and j < m, len(self.curr_level[j]) == 0)))")
+contract(F, "DefaultQueue._iter_helper_curr", props=["C16"], aliases=AL, yield_seq=True, asserts="raise",
          params={"self": Q}, returns=Seq(WorkPacket),
          requires=["exists(lambda i: 0 <= i and i < len(self.curr_level) and len(self.curr_level[i]) > 0)"],
-         ensures=["len(self.working) == old(len(self.working))", "wf(self)"],
-         may_raise=["StopIteration"], modifies=[m for m in _NEXT_MODS if m != "*self.working"])
+         ensures=["len(self.working) == old(len(self.working))", "wf(self)",
+                  # the head of the first non-empty stage is taken out of it
+                  "forall(lambda m: implies(" + _FIRST + ", len(self.curr_level[m]) == old(len(self.curr_level[m])) - 1))",
+                  # last stage (one past the expansion groups): no work, the label is told to stop
+                  "forall(lambda m: implies(" + _FIRST + " and m == len(self.expansion_strats), len(result) == 0 and "
+                  "old(self.curr_level[m][0]) in self.ignore))",
+                  # otherwise: one packet per strategy of expansion group m, in order, for that label, none of them inferral;
+                  # the label moves on to the next stage
+                  "forall(lambda m: implies(" + _FIRST + " and m < len(self.expansion_strats), "
+                  "len(result) == len(self.expansion_strats[m]) and "
+                  "forall(lambda j: implies(0 <= j and j < len(result), result[j].label == old(self.curr_level[m][0]) and "
+                  "not result[j].inferral and len(result[j].strategies) == 1 and "
+                  "result[j].strategies[0] == self.expansion_strats[m][j])) and "
+                  "len(self.curr_level[m + 1]) == old(len(self.curr_level[m + 1])) + 1 and "
+                  "self.curr_level[m + 1][len(self.curr_level[m + 1]) - 1] == old(self.curr_level[m][0])))",
+                  "forall(lambda y: implies(old(y in self.ignore), y in self.ignore))"],
+         loops={0: dict(ghost_before=["base = len(yielded)", "pre = yielded"], invariant=[
+             "len(yielded) == base + _i0",
+             "forall(lambda j: implies(0 <= j and j < base, yielded[j] == pre[j]))",
+             "forall(lambda j: implies(0 <= j and j < _i0, yielded[base + j].label == label and "
+             "not yielded[base + j].inferral and len(yielded[base + j].strategies) == 1 and "
+             "yielded[base + j].strategies[0] == self.expansion_strats[idx][j]))"], modifies=[])},
+         modifies=[m for m in _NEXT_MODS if m != "*self.working"],
+         notes="serves the first non-empty stage: expansion group m for its head label, then the label moves to stage m+1; "
+               "from the last stage the label is retired")
 contract(F, "DefaultQueue._populate_staging", props=["C16"], aliases=AL,
          params={"self": Q}, may_raise=["StopIteration"],
          ensures=["len(self.staging) > 0"],
